@@ -1,6 +1,7 @@
 #include "entity_manager.hpp"
 
 #include <cstring>
+#include <algorithm>
 
 #include <mustache/utils/profiler.hpp>
 
@@ -25,8 +26,23 @@ EntityManager::EntityManager(World& world):
     MUSTACHE_PROFILER_BLOCK_LVL_0(__FUNCTION__ );
 }
 
-Archetype& EntityManager::getArchetype(const ComponentIdMask& mask, const SharedComponentsInfo& shared) {
+Archetype& EntityManager::getArchetype(const ComponentIdMask& mask, const SharedComponentsInfo& shared_values) {
     MUSTACHE_PROFILER_BLOCK_LVL_2(__FUNCTION__ );
+    // Canonical descriptor: every value goes through the value pool (one instance per distinct value, also for
+    // values that arrive with a creation) and the types are ordered by id, so that the same set of shared values
+    // always selects the same archetype whatever the order in which they were assigned.
+    SharedComponentsInfo shared;
+    if (!shared_values.empty()) {
+        std::vector<std::pair<SharedComponentId, SharedComponentPtr> > items;
+        for (uint32_t i = 0; i < shared_values.ids().size(); ++i) {
+            const auto id = shared_values.ids()[i];
+            items.emplace_back(id, getCreatedSharedComponent(shared_values.data()[i], id));
+        }
+        std::sort(items.begin(), items.end(), [](const auto& lhs, const auto& rhs) { return lhs.first < rhs.first; });
+        for (const auto& item : items) {
+            shared.add(item.first, item.second);
+        }
+    }
     const ComponentIdMask arch_mask = mask.merge(getExtraComponents(mask));
     ArchetypeComponents archetype_components;
     archetype_components.unique = arch_mask;
